@@ -313,6 +313,8 @@ Definition apply_conv (id : Z) (v : val) (r : row) : res val :=
     else if py_eq v (VStr [98]) then Ok (VStr (zs "bee"))
     else if py_eq v VNone then Ok (VStr (zs "none"))
     else match v with VSeq true _ => Err TypeErr | _ => Err KeyErr end
+  else if id =? 9 then                                                      (* fails on tuples (of any length) *)
+    match v with VSeq false _ => Err (UserErr 9) | _ => Ok (VSeq false [VStr (zs "ok"); v]) end
   else Err OtherErr.
 
 Inductive conv := CFn (id : Z) | CDict (d : list (val * val)) | CNone.
@@ -424,6 +426,14 @@ Definition apply_rowmapper (id : Z) (flds : list val) (r : row) : res row :=
                        | x :: _ => if py_eq x (vint 2) || py_eq x (VStr [120]) then Err (UserErr 1) else Ok [x; vint (zlen r)]
                        | [] => Err IndexErr
                        end                                                                        (* fails on key 2 / 'x' *)
+  else if id =? 2 then match r with        (* returns a lazy row: the failure happens while the output tuple is built *)
+                       | x :: _ => if py_eq x (vint 2) || py_eq x (VStr [120]) then Err (UserErr 2) else Ok [x; vint (zlen r)]
+                       | [] => Err IndexErr
+                       end
+  else if id =? 3 then match r with        (* returns None for the failing rows: tuple(None) raises TypeError *)
+                       | x :: _ => if py_eq x (vint 2) || py_eq x (VStr [120]) then Err TypeErr else Ok [x; vint (zlen r)]
+                       | [] => Err IndexErr
+                       end
   else Err OtherErr.
 
 Fixpoint rowmap_rows (id : Z) (flds : list val) (pol : policy) (rows : list row) : list row * option exn :=
